@@ -90,7 +90,7 @@ def gen(rng, tier):
     for kind, el, p in NAMED:
         for lat, lon in points(rng, kind, p, 60 if big else 12):
             named.append(case_line(kind, el, p, lat, lon))
-    for _ in range(4000 if big else 500):
+    for _ in range(12000 if big else 500):
         kind, el, p = rand_set(rng)
         for lat, lon in points(rng, kind, p, 6 if big else 5):
             rnd.append(case_line(kind, el, p, lat, lon))
@@ -250,12 +250,14 @@ CHECK = {
         "text": "Coq theorems over the reals about a model of LambertConverter: derivative of the isometric latitude (Coquelicot), "
                 "the partial derivatives of toLambert are orthogonal and give equal scale along meridian and parallel (conformal), "
                 "scale 1 on both standard parallels / k0 on the tangent parallel, origin -> false origin, central meridian -> x = x0, "
-                "toWGS84 recovers isometric latitude and longitude exactly on cones of either hemisphere and the true latitude is a "
-                "fixed point of the contracting iteration (|g'| <= e^2/(1-e^2)); the pre-repair inverse is undefined on every point of "
-                "a southern cone. Tied by running the extracted model against the compiled class; mpmath oracle differentiates the "
+                "toWGS84 recovers isometric latitude and longitude exactly on cones of either hemisphere, the true latitude is a "
+                "fixed point of the latitude iteration, which is a global contraction (|g'| <= e^2/(1-e^2), mean value theorem), so for "
+                "e <= 0.1 any returned latitude is within EPSILON/98 of the true one; the pre-repair inverse is undefined on every "
+                "point of a southern cone. Tied by running the extracted model against the compiled class; mpmath oracle differentiates the "
                 "implementation's forward map numerically.",
         "note": "Trusted: Coq kernel, real-number axioms, hand-written model, extraction, float dictionary, harness, oracle. "
-                "Float rounding/libm observed, not proved; numerical differentiation tolerance 2e-8.",
+                "Float rounding/libm observed, not proved; numerical differentiation tolerance 2e-8. Termination of the "
+                "latitude loop within the fuel is observed (HANG outcome), not proved.",
         "technique": "Coq proof (Coquelicot derivatives, field/nra) + correspondence run + mpmath oracle",
     },
 }
